@@ -191,6 +191,10 @@ class StmtMixin:
             t = self.c.types.get(s.targets[0].id)
             if t is not None and t.kind == 'list':
                 s.value._elem_hint = t.args[0]
+        if isinstance(s.value, ast.Dict) and isinstance(s.targets[0], ast.Attribute):
+            ft = self.static_attr_type(s.targets[0], st)
+            if ft is not None and ft.kind == 'dict':
+                s.value._dict_hint = ft
         if isinstance(s.value, ast.List) and isinstance(s.targets[0], ast.Attribute):
             ft = self.static_attr_type(s.targets[0], st)
             if ft is not None and ft.kind == 'list':
@@ -606,6 +610,7 @@ class StmtMixin:
         for o in body_outs:
             if o.kind in ('next', 'continue'):
                 s3 = o.st
+                self.check_stable_types(h, s3, s)
                 if post_iter is not None:
                     post_iter(s3)
                 for k, inv in enumerate(invs):
@@ -624,6 +629,30 @@ class StmtMixin:
         else:
             outs += [_out('next', e) for e in exit_states]
         return outs
+
+    def check_stable_types(self, head, back, node):
+        """a variable havocked at the loop head keeps the type it had there; a value of another type arriving on the back edge
+        (e.g. None -> tuple) cannot be represented by the havocked variable: refuse rather than mis-model"""
+        for name, v0 in head.env.items():
+            v1 = back.env.get(name)
+            if v1 is None or name.startswith('_'):
+                continue
+            t0 = v0.ty
+            t1 = v1.ty
+            if t0 != t1 and name in self.c.types and not isinstance(v1, SeqV):
+                try:
+                    back.env[name] = self.coerce(v1, self.c.types[name], back)      # flow-narrowed value back at its declared type
+                    continue
+                except Exception:
+                    pass
+            if t0 != t1 and not (sort_of(t0) == sort_of(t1) and t0.kind == t1.kind):
+                from .engine import WidenType
+                if name not in self.c.types:
+                    if t0.kind == 'none' and t1.kind not in ('seq',):
+                        raise WidenType(name, TOpt(t1))
+                    if t1.kind == 'none' and t0.kind not in ('seq',):
+                        raise WidenType(name, TOpt(t0))
+                _unsup('variable %r changes type across loop iterations (%r -> %r): declare it in the contract types' % (name, t0, t1), node)
 
     def st_For(self, s, st):
         no, spec = self.loop_spec(s)
@@ -666,6 +695,9 @@ class StmtMixin:
                 yield ('dict', v, 'keys'), s2
             elif v.ty.kind == 'set':
                 yield ('set', v), s2
+            elif v.ty.kind == 'obj' and self.reg.find_method(v.ty.args[0], '__iter__') is not None:
+                for sq, s3 in self.apply_contract(self.reg.find_method(v.ty.args[0], '__iter__'), [v], {}, s2, e):
+                    yield ('seq', sq), s3
             else:
                 _unsup('iteration over %r' % (v.ty,), e)
 
@@ -714,6 +746,7 @@ class StmtMixin:
         for o in self.block(s.body, [b]):
             if o.kind in ('next', 'continue'):
                 s3 = o.st
+                self.check_stable_types(h, s3, s)
                 s3.env[var] = SV(INT, s3.env[var].z + step) if var not in self.assigned_names(ast.Module(body=s.body, type_ignores=[])) \
                     else SV(INT, b.env[var].z + step)
                 for k, inv in enumerate(invs):
@@ -763,7 +796,7 @@ class StmtMixin:
         fake = ast.Name(id=kname, ctx=ast.Store())
         s._ghost_targets = [fake]
         spec2 = dict(spec)
-        spec2['inv'] = ['0 <= %s' % kname] + list(spec.get('inv', []))
+        spec2['inv'] = ['0 <= %s' % kname] + ([] if kind == 'list' else ['%s <= len(%s)' % (kname, sname)]) + list(spec.get('inv', []))
         return self.run_loop(s, st, no, spec2, test=None, pre_body=pre_body, post_iter=post_iter)
 
     def enumeration(self, it, st):
